@@ -175,7 +175,14 @@ func (lc *lenCtx) elemLenInvariant(base ssa.Value, l *core.Loop, at ssa.Instruct
 	if what == "" {
 		return false, ""
 	}
-	need := symStr(core.TermOf(l.Hi))
+	hiT := core.TermOf(l.Hi)
+	// `for c := range Vc` with Vc = make([]T, n): the bound is n
+	if hiT.Op == "call:len" {
+		if mk, isMk := valueOfTerm(hiT.Args[0]).(*ssa.MakeSlice); isMk {
+			hiT = core.TermOf(mk.Len)
+		}
+	}
+	need := symStr(hiT)
 	if l.HiIncl {
 		parts := []string{need, "1"}
 		sort.Strings(parts)
